@@ -110,6 +110,17 @@ def impl(case):
             vals, vecs = f(M, nvals=case['nvals'])
             out[name] = {'vals': [_c(v) for v in vals], 'vecs': [[_c(x) for x in v] for v in vecs]}
             out[name]['all'] = [_c(v) for v in f(M)[0]]
+        from implutil import alt_layouts
+        diff = []
+        for lname, A in alt_layouts(M).items():
+            keep = A.copy()
+            for name, f in (('left', linalg.left_eigenvectors), ('right', linalg.right_eigenvectors)):
+                vals = f(A, nvals=case['nvals'])[0]
+                if [_c(v) for v in vals] != out[name]['vals']:
+                    diff.append('%s eigenvalues of a %s matrix differ from those of the C-ordered matrix' % (name, lname))
+            if not np.array_equal(keep, A):
+                diff.append('a %s matrix was modified' % lname)
+        out['layout_diff'] = diff
         out['lvals'] = [_c(v) for v in linalg.left_eigenvalues(M, nvals=case['nvals'])]
         out['rvals'] = [_c(v) for v in linalg.right_eigenvalues(M, nvals=case['nvals'])]
         return out
@@ -195,6 +206,8 @@ def judge(case, ibc, answers):
                     P('impl-vs-spec', '%s eigenvalues are not in descending order: %s' % (name, [float(v[0]) for v in vals]))
                 if want == n and (abs(sre - tr) > tol * n or abs(sim) > tol * n):
                     P('impl-vs-spec', '%s eigenvalues do not sum to the trace' % name)
+            for d in r.get('layout_diff') or []:
+                P('impl-vs-spec', d)
             if r['lvals'] != r['left']['vals'] or r['rvals'] != r['right']['vals']:
                 P('impl-vs-spec', '*_eigenvalues differ from the values returned by *_eigenvectors')
             continue
